@@ -186,6 +186,41 @@ Theorem created_rejects_changed_tbs :
 Proof. exact created_rejects_changed_tbs_lemma. Qed.
 Print Assumptions created_rejects_changed_tbs.
 
+(* the user id of the signing path.  The SM2 signer of the Create* functions signs over the Z value of the
+   DEFAULT user id - the model's signer is a function of key, TBS and random stream, so nothing done with
+   the key object earlier (signatures, digests, verifications with other user ids) can change it -
+   and a signature over the Z value of any OTHER user id, stored in an object, is accepted by
+   checkSignature only if the two SM3 digests agree modulo n.  (A key object that keeps the Z value
+   of the last user id it was used with issues exactly such objects; the driver's user-id histories
+   run this on the implementation.) *)
+Theorem C09_signer_signs_over_default_Z :
+  forall fuel pr tbs rho sig rho',
+    create_signature_sm2 fuel pr tbs rho = Ok (sig, rho') ->
+    exists r s, sig = sig_encode r s /\ Sm2Sign fuel pr tbs default_uid rho = Ok (r, s, rho').
+Proof. exact create_signature_sm2_default_uid. Qed.
+Print Assumptions C09_signer_signs_over_default_Z.
+
+Theorem C09_other_uid_Z_rejected :
+  forall pub tbs uid r s,
+    (Z.of_nat (List.length (uid_or_default uid)) < 8192)%Z ->
+    (0 <= fst pub < 2 ^ 256)%Z -> (0 <= snd pub < 2 ^ 256)%Z ->
+    Sm2Verify pub tbs uid r s = true ->
+    checkSignature_sm2 pub tbs (sig_encode r s) = true ->
+    (e_spec pub (uid_or_default uid) tbs mod EC.SM2Curve.sm2_n = e_spec pub default_uid tbs mod EC.SM2Curve.sm2_n)%Z.
+Proof. exact other_uid_Z_rejected_lemma. Qed.
+Print Assumptions C09_other_uid_Z_rejected.
+
+(* non-vacuity: for the user id "alice" and the key [1]G the Z values differ, and so do the digests of 010203 mod n;
+   the empty user id stands for the default one *)
+Example other_uid_example :
+  let pub := ScalarBaseMult 1 in
+  let uid := [97; 108; 105; 99; 101] in
+  let tbs := [1; 2; 3] in
+  za_spec pub uid <> za_spec pub default_uid
+  /\ (e_spec pub (uid_or_default uid) tbs mod EC.SM2Curve.sm2_n <> e_spec pub default_uid tbs mod EC.SM2Curve.sm2_n)%Z
+  /\ uid_or_default [] = default_uid.
+Proof. vm_compute. repeat split; discriminate. Qed.
+
 (* RSA and ECDSA (and any scheme) by contract: a primitive whose signatures verify under the matching
    public key makes every created object verify, because the verifier runs the scheme the signer used *)
 Theorem created_verifies_by_contract :
